@@ -22,4 +22,4 @@ Extraction "model.ml"
   repr_bitand repr_bitor repr_bitxor ibig_bitand_asis ibig_bitor_asis ibig_bitxor_asis
   repr_shl repr_shl_ref repr_shr repr_shr_ref ibig_shl_asis ibig_shl_ref_asis ibig_shr_asis ibig_shr_ref_asis
   fadd_form_x ctx_sub_r3_x fsum_asis_x fprod_asis i_gcd_form
-  fmul_ctx_r4 fdiv_op_r4 fdiv_ctx_r4 fsqr_r4 fcubic_r4 finv_r4.
+  fmul_ctx_r4 fdiv_op_r4 fdiv_ctx_r4 fsqr_r4 fcubic_r4 finv_r4 cd_divrem_asis cd_div_asis cd_rem_asis.
